@@ -1297,7 +1297,8 @@ impl<T: ArrayValue> Array<T> {
         if indices_shape.len() > 1 {
             let row_count = indices_shape[0];
             let row_len = indices_shape[1..].iter().product();
-            if row_len == 0 {
+            if row_count == 0 || row_len == 0 {
+                // There are no indices, but the result still has all of their axes
                 let shape: Shape = indices_shape
                     .iter()
                     .chain(self.shape.iter().skip(1))
